@@ -1,4 +1,5 @@
 """C09 — every wire has exactly one driver, or the program is rejected."""
+from props import C14
 from props.common_prog import judge_prog
 from props import C19
 
@@ -30,4 +31,6 @@ def streams(tier, seed):
             {"name": "prog-dag", "stream": "prog", "count": 200 if q else 5000, "extra": ("dag",), "judge": judge},
             # the same decisions for programs that come from FILES (accepted, rejected, larger than 64 KiB, not UTF-8, bare-CR
             # line ends): the real binary, as in C19
-            {"name": "cli", "stream": "cli", "count": 300 if q else 8000, "pygen": C19.pygen, "judge": C19.judge}]
+            {"name": "cli", "stream": "cli", "count": 300 if q else 8000, "pygen": C19.pygen, "judge": C19.judge},
+            # the text of the diagnostics, byte for byte against the model of errors.rs (as in C14)
+            {"name": "render", "stream": "render", "count": 1500 if q else 40000, "judge": C14.judge_render}]
